@@ -16,6 +16,9 @@ CONSTANTS
   MaxUpdates = 0
   MaxCalls = 0
   NPages = 1
+  ListenOwns = FALSE
+  ResubRace = TRUE
+  GenCheck = TRUE
   ModernUnsub = TRUE
   ForeignUnsub = FALSE
   Stepwise = TRUE
